@@ -217,7 +217,7 @@ class LoadEngine(SqlEngine):
         if not is_sym(cond):
             return bool(cond)
         if self.pruner is not None:
-            r = self.pruner.feasible(list(self.assume or []) + list(self.pc) + [cond])
+            r = self.pruner.feasible(list(self.assume or []) + list(self.pc), cond)
             if r is not None:
                 return r
         return super()._feasible(cond)
@@ -367,6 +367,8 @@ def run_row(eng: SqlEngine, prog: LoadProgram, row: Dict[str, SV]) -> RowOutcome
             senv = {k.lower(): v for k, v in stored.items()}
             if w is None or eng.decide(eng.truth(eng.as_bool(eng.eval(w, senv)))):
                 stored[col] = eng.eval(e, senv)
+                if prog.not_null.get(col) and (stored[col].sort == "null" or eng.decide(stored[col].null)):
+                    return RowOutcome(False, stored, f"NOT NULL constraint on {col} (UPDATE)")
         senv = {k.lower(): v for k, v in stored.items()}
         for c in prog.temporal_cases:
             r = eng.eval(c, senv)
